@@ -372,6 +372,19 @@ func (r *SignerRig) Restart() error {
 	return r.openRules()
 }
 
+// StopStore closes the slashing-protection store (e.g. to let the CLI use the directory).
+func (r *SignerRig) StopStore() error { return r.Rules.Close(r.Ctx) }
+
+// StartStore reopens the store after StopStore and rebuilds the services depending on it.
+func (r *SignerRig) StartStore() error { return r.openRules() }
+
+// Adopt registers an existing account object with this rig's fetcher.
+func (r *SignerRig) Adopt(wallet string, a *Acct) {
+	if err := r.RealFetch.AddAccount(r.Ctx, r.Wallets[wallet], a); err != nil {
+		panic(err)
+	}
+}
+
 // AddSymAccount adds a fresh symbolic-key account through the real fetcher's AddAccount.
 func (r *SignerRig) AddSymAccount(wallet string, name string, pass string, unlocked bool) *Acct {
 	if name == "" {
